@@ -1,0 +1,40 @@
+//go:build verif
+
+package bcrypt_pbkdf
+
+// Contracts for govc (/verif). Comments only.
+//
+// OpenBSD bcrypt_pbkdf structure around the Blowfish-based bcryptHash (trusted primitives) and SHA-512
+// (ghost stream on hash.Hash): which bytes are hashed for each block and round, and where the output
+// bytes go (the stride placement key[i*numBlocks + block]).
+
+//@ func bcryptHash
+//@ props C19
+//@ assume_global len(magic) == 32
+//@ requires len(out) >= 32 && len(shapass) >= 1 && len(shasalt) >= 1
+//@ modifies out[0:32]
+//@ loop 1 invariant 0 <= i && i <= 64 && sameoutside(out[0:0])
+//@ loop 2 invariant 0 <= i && i <= 32 && i % 8 == 0 && sameoutside(out[0:32])
+//@ loop 3 invariant 0 <= j && j <= 64 && sameoutside(out[0:32])
+//@ loop 4 invariant 0 <= i && i <= 32 && i % 4 == 0 && sameoutside(out[0:32])
+
+//@ func Key
+//@ props C19
+//@ requires keyLen >= 0
+//@ modifies heap
+//@ ensures iff(result1 != nil, rounds < 1 || len(password) == 0 || len(salt) == 0 || len(salt) > 1048576 || keyLen > 1024)
+//@ ensures implies(result1 == nil, len(result0) == keyLen) && implies(result1 != nil, result0 == nil)
+// per output block: the first bcryptHash input is SHA-512(salt | block number as 4 big-endian bytes), every later round
+// hashes the previous 32-byte result; the block's bytes go to key[i*numBlocks + (block-1)]
+//@ loop 1 invariant 1 <= block && block <= numBlocks + 1 && len(key) == 32 * numBlocks && len(tmp) == 32 && len(cnt) == 4 && len(shapass) == 64 && cap(shasalt) == 64 && len(shasalt) == 0
+//@ loop 1 invariant newobj(key) && newobj(tmp) && newobj(cnt) && newobj(shapass) && newobj(shasalt) && h != nil && spec.hsize(h) == 64
+//@ loop 1 invariant !sameobj(tmp, key) && !sameobj(tmp, cnt) && !sameobj(tmp, shapass) && !sameobj(tmp, shasalt) && !sameobj(shasalt, shapass) && !sameobj(cnt, shasalt)
+//@ loop 2 invariant 2 <= i && len(out) == 32 && newobj(out) && !sameobj(out, tmp) && !sameobj(out, key)
+//@ loop 3 invariant 0 <= j && j <= 32
+//@ loop 4 invariant -1 <= rangeindex && rangeindex < 32
+//@ loop 4 invariant forall(k, 0, rangeindex + 1, key[k * numBlocks + (block - 1)] == out[k])
+//@ check_at "out := make([]byte, blockSize)" ghost(h, hlen) == len(salt) + 4 && forall(q, 0, len(salt), ghost(h, hbuf)[q] == salt[q])
+//@ check_at "out := make([]byte, blockSize)" ghost(h, hbuf)[len(salt)] == (block / 16777216) % 256 && ghost(h, hbuf)[len(salt) + 1] == (block / 65536) % 256 && ghost(h, hbuf)[len(salt) + 2] == (block / 256) % 256 && ghost(h, hbuf)[len(salt) + 3] == block % 256
+//@ mark PREV "h.Write(tmp)"
+//@ check_at "for j := 0; j < len(out); j++ {" ghost(h, hlen) == 32 && forall(q, 0, 32, ghost(h, hbuf)[q] == at(PREV, tmp[q]))
+//@ canary ensures result1 != nil
